@@ -58,7 +58,7 @@ def f_eq(a):
 def f_min(a):
     A = build(a["A"])
     m = A.min
-    vals = [[list(s), enc_rat(m(s))] for s in fam.strings(SIG[:2], a["L"])]
+    vals = [[list(s), enc_rat(m(s))] for s in fam.strings(SIG if a["A"]["n"] >= 5 else SIG[:2], a["L"] if a["A"]["n"] < 5 else 2)]
     return {"op": "min", "A": a["A"], "sigma": SIG, "dim": int(m.dim), "vals": vals}
 
 
@@ -156,10 +156,20 @@ def generate(rng, tier, shard, nshards):
                 B = aops.rand_wfsa(rng, "Rat", nS=rng.choice([1, 2, 3]), narcs=3, labels=("a", "b"), eps_acyclic=True, acyclic=True)
             else:
                 B = variant(rng, A, kind)
-            if B is None:
+            if B is None or (kind == "deadsym" and i % 3 != 0):
                 continue
             yield event("cex", {"A": A, "B": B}, site="counterexample", feat=kind)
             yield event("eq", {"A": A, "B": B}, site="__eq__/__hash__", feat=kind)
+            if kind in ("split", "redundant", "deadsym", "random"):
+                yield event("min", {"A": B, "L": 3}, site="WFSA.min", feat="min-of-" + kind)
+        if i % 8 != shard % 8:
+            continue
+        # a deterministic trie whose branches have the same future: forward-minimal but not minimal
+        x, y, z = rng.sample(["a", "b", "c"], 3)
+        w = rng.choice(W)
+        trie = {"n": 5, "I": [[0, [1, 1]]], "F": [[3, w], [4, w]],
+                "arcs": [[0, x, 1, [1, 2]], [0, z, 2, [1, 2]], [1, y, 3, [1, 2]], [2, y, 4, [1, 2]]]}
+        yield event("min", {"A": trie, "L": 3}, site="WFSA.min", feat="min-of-trie")
         lift = lambda w: {"n": 2, "I": [[0, [1, 1]]], "F": [[1, [1, 1]]], "arcs": [[0, "a", 1, w]]}
         yield event("eq", {"A": lift([1, 2]), "B": lift([3, 4])}, site="__eq__/__hash__", feat="lift-noninteger")
         yield event("cex", {"A": lift([1, 2]), "B": lift([3, 4])}, site="counterexample", feat="lift-noninteger")
